@@ -52,7 +52,7 @@ def configs(ctx):
     return out
 
 
-CONTAINERS = [('set',), ('list',), ('tuple',), ('list', 'tuple', 'set')]
+CONTAINERS = [('set',), ('list',), ('tuple',), ('list', 'tuple', 'set'), ('alias',)]
 
 
 def check_queries(ctx, name, st, hs):
